@@ -201,6 +201,17 @@ func init() {
 			it = append(it, Item{PkgKey: "root", Func: "VerifC06_Registry", Shape: []int{0}}, Item{PkgKey: "root", Func: "VerifC06_Registry", Shape: []int{1}})
 			it = append(it, Item{PkgKey: "root", Func: "VerifC06_MHDR", Shape: []int{}}, Item{PkgKey: "root", Func: "VerifC06_FCtrl", Shape: []int{}})
 			it = append(it, Item{PkgKey: "root", Func: "VerifC06_CFListDec", Shape: []int{0}}, Item{PkgKey: "root", Func: "VerifC06_CFListDec", Shape: []int{1}})
+			// frame headers and join payloads: encoder output byte-for-byte against the spec-side layouts (harnesses shared with C01)
+			it = append(it, Item{PkgKey: "root", Func: "VerifC01_JoinRequest", Shape: []int{}})
+			it = append(it, Item{PkgKey: "root", Func: "VerifC01_Rejoin", Shape: []int{0}}, Item{PkgKey: "root", Func: "VerifC01_Rejoin", Shape: []int{1}})
+			for cf := 0; cf <= 8; cf++ {
+				it = append(it, Item{PkgKey: "root", Func: "VerifC01_JoinAccept", Shape: []int{cf}})
+			}
+			for mt := 0; mt < 4; mt++ {
+				for _, sh := range [][]int{{0, 0, 0}, {15, 0, 0}, {0, 1, 5}, {3, 2, 17}} {
+					it = append(it, Item{PkgKey: "root", Func: "VerifC01_Data", Shape: append([]int{mt}, sh...)})
+				}
+			}
 			return it
 		},
 		Bounds: func(tier string) map[string]string { return map[string]string{} },
